@@ -266,7 +266,16 @@ def execute(scn):
             try:
                 if live is None:
                     raise LookupError
-                live.connect("nosuchport_z", env.objs[sigs[0]])
+                if hash64(scn.get("seed"), "lateform") % 2 and live.conns:
+                    # replace() of an existing connection by a signal of another width
+                    pn = sorted(live.conns)[0]
+                    have_w = getattr(live.conns[pn], "width", None)
+                    other = [env.objs[n_] for n_ in sigs if isinstance(have_w, int) and design.mods[top].sigs[n_][0] != have_w]
+                    if not other:
+                        raise LookupError
+                    live.replace(pn, other[0])
+                else:
+                    live.connect("nosuchport_z", env.objs[sigs[0]])
                 probe("late_connection_accepted")
                 r3 = it.run(["to_proto", [top], True])
                 if r3["ok"]:
